@@ -953,7 +953,7 @@ func makeObject(props map[string]string, schema *openapi3.SchemaRef) (map[string
 			return nil, err
 		}
 	}
-	r, err := buildResObj(mobj, nil, "", schema)
+	r, err := buildResObj(mobj, nil, schema)
 	if err != nil {
 		return nil, err
 	}
@@ -997,11 +997,11 @@ func sliceMapToSlice(m map[string]any) ([]any, error) {
 	return result, nil
 }
 
-// buildResObj constructs an object based on a given schema and param values
-func buildResObj(params map[string]any, parentKeys []string, key string, schema *openapi3.SchemaRef) (any, error) {
-	mapKeys := parentKeys
-	if key != "" {
-		mapKeys = append(mapKeys, key)
+// buildResObj constructs an object based on a given schema and param values: what params holds at
+// the key path mapKeys (every level of the descent adds its key, the empty key of `p[]=1` too).
+func buildResObj(params map[string]any, mapKeys []string, schema *openapi3.SchemaRef) (any, error) {
+	childKeys := func(key string) []string {
+		return append(mapKeys[:len(mapKeys):len(mapKeys)], key)
 	}
 
 	switch {
@@ -1021,7 +1021,7 @@ func buildResObj(params map[string]any, parentKeys []string, key string, schema 
 		}
 		resultArr := make([]any /*not 0,*/, len(arr))
 		for i := range arr {
-			r, err := buildResObj(params, mapKeys, strconv.Itoa(i), schema.Value.Items)
+			r, err := buildResObj(params, childKeys(strconv.Itoa(i)), schema.Value.Items)
 			if err != nil {
 				return nil, err
 			}
@@ -1040,7 +1040,7 @@ func buildResObj(params map[string]any, parentKeys []string, key string, schema 
 			return pp, nil
 		}
 		for k, propSchema := range schema.Value.Properties {
-			r, err := buildResObj(params, mapKeys, k, propSchema)
+			r, err := buildResObj(params, childKeys(k), propSchema)
 			if err != nil {
 				return nil, err
 			}
@@ -1051,7 +1051,7 @@ func buildResObj(params map[string]any, parentKeys []string, key string, schema 
 		if additPropsSchema != nil {
 			// dynamic creation of possibly nested objects
 			for k := range objectParams {
-				r, err := buildResObj(params, mapKeys, k, additPropsSchema)
+				r, err := buildResObj(params, childKeys(k), additPropsSchema)
 				if err != nil {
 					return nil, err
 				}
@@ -1063,11 +1063,11 @@ func buildResObj(params map[string]any, parentKeys []string, key string, schema 
 
 		return resultMap, nil
 	case len(schema.Value.AnyOf) > 0:
-		return buildFromSchemas(schema.Value.AnyOf, params, parentKeys, key)
+		return buildFromSchemas(schema.Value.AnyOf, params, mapKeys)
 	case len(schema.Value.OneOf) > 0:
-		return buildFromSchemas(schema.Value.OneOf, params, parentKeys, key)
+		return buildFromSchemas(schema.Value.OneOf, params, mapKeys)
 	case len(schema.Value.AllOf) > 0:
-		return buildFromSchemas(schema.Value.AllOf, params, parentKeys, key)
+		return buildFromSchemas(schema.Value.AllOf, params, mapKeys)
 	default:
 		val, ok := deepGet(params, mapKeys...)
 		if !ok {
@@ -1088,10 +1088,10 @@ func buildResObj(params map[string]any, parentKeys []string, key string, schema 
 }
 
 // buildFromSchemas decodes params with anyOf, oneOf, allOf schemas.
-func buildFromSchemas(schemas openapi3.SchemaRefs, params map[string]any, mapKeys []string, key string) (any, error) {
+func buildFromSchemas(schemas openapi3.SchemaRefs, params map[string]any, mapKeys []string) (any, error) {
 	resultMap := make(map[string]any)
 	for _, s := range schemas {
-		val, err := buildResObj(params, mapKeys, key, s)
+		val, err := buildResObj(params, mapKeys, s)
 		if err == nil && val != nil {
 
 			if m, ok := val.(map[string]any); ok {
